@@ -186,7 +186,7 @@ def history(lines, upto=None):
     return " ; ".join(out)
 
 
-def classify(x):
+def classify(x, threaded=False):
     """signature of a rejection returned by ctx.validate: which kind of event, which field disagrees with
     the most recent store of that key in the same execution (only used to name the failure class -
     TLC has already decided)."""
@@ -206,6 +206,8 @@ def classify(x):
                 last = e
         if not ev.get("hit"):
             return "fetch-miss"
+        if threaded:        # the order of concurrent stores is the servers', not the Inv order: no finer class
+            return "fetch-result-differs-from-server-step"
         if last is None:
             return "fetch-hit-never-stored"
         if ev.get("rv") != last.get("v"):
@@ -218,5 +220,24 @@ def classify(x):
     if k == "Op":
         return "observed-state-after-%s" % ev.get("op")
     if k == "Wire":
-        return "wire-%s" % ev.get("kc")
+        exp = sorted(ev.get("ts", []) + ([ev["k"]] if ev.get("k") not in ev.get("ts", []) else []))
+        if ev.get("live") and (ev.get("w", -1) < 0 or ev.get("wprev", -1) not in (-1, ev.get("w"))):
+            return "wire-placement"
+        if ev.get("live") != ev.get("shit"):
+            return "wire-server-does-not-hold-live-entry" if ev.get("live") else "wire-server-holds-expired-entry"
+        if ev.get("shit") and (ev.get("sv") != ev.get("v") or ev.get("sdl") != ev.get("dl") or sorted(ev.get("sts", [])) != exp):
+            return "wire-store-path"
+        for f in ev.get("f", []):
+            if f.get("hit") != ev.get("live"):
+                return "wire-fetch-hit" if f.get("hit") else "wire-fetch-miss"
+            if f.get("hit"):
+                if f.get("v") != ev.get("v"):
+                    return "wire-fetch-value"
+                if sorted(f.get("ts", [])) != exp:
+                    return "wire-fetch-triggers"
+                if f.get("dl") != ev.get("dl"):
+                    return "wire-fetch-deadline"
+                if not f.get("geq"):
+                    return "wire-fetch-generation"
+        return "wire-other"
     return "%s-%s" % (k, ev.get("op", ""))
